@@ -22,7 +22,7 @@ MANIFEST = dict(
          "table, composed per combination) and the listed ones provably fail. Tie: constants and the guard operator are "
          "regenerated from the source; the member model is checked by a reflective correspondence (dir() of every reachable "
          "object of the REAL facades, a member the model does not know is a failure) exhaustive over all 895 combinations."
-         ' Since session 3: update histories (unit flip, temperature change, flip back) reach the block through replace_status_block_segment - the notification chain runs - and every member must read as the model says for the final block. Round 14: every member on the second and third connection of one process (harness/sessions.py).',
+         ' Since session 3: update histories (unit flip, temperature change, flip back) reach the block through replace_status_block_segment - the notification chain runs - and every member must read as the model says for the final block. Round 14: every member on the second and third connection of one process (harness/sessions.py). Round 15: the client\'s handler reads every facade member inside the teardown / disconnected / ready / finished events.',
     note="Trusted: Lean kernel; harness/packs.py table extraction; the stub spa (struct + accessors, as tests/test_snapshots.py); "
          "the canonicaliser. Members that start I/O (async_*, set_*, turn_on/off, update) are C13's. Float digits are C14's: the "
          "model predicts only that a temperature member is a float / its rendering a str. has_observers, object reprs, "
@@ -330,8 +330,25 @@ def check_sessions(ctx):
         vals, _keys, _un = impl_eval(man.facade, "a", raised, f"session-{k}")
         return {"raised": [f"{r[0]}.{r[1]}: {type(r[2]).__name__}: {r[2]}" for r in raised][:6],
                 "vals": {kk: v for kk, v in vals.items() if "ping" not in kk.lower() and "reminder" not in kk.lower()}}
-    recs = sessions.run_sessions([("connect", snap), ("reset",), ("reset",)], observe)
+    during = []
+
+    async def handler(man, event, **kw):
+        # what a client does when it is told about a change of the connection: it looks at the facade it was handed (a final state
+        # write when the facade is torn down, a first one when it is ready) - whenever the manager offers a facade, reading it must work
+        name = str(event).split(".")[-1]
+        if man.facade is not None and any(x in name for x in ("TEARDOWN", "DISCONNECTED", "FACADE_IS_READY", "FINISHED")):
+            raised = []
+            impl_eval(man.facade, "a", raised, f"event:{name}")
+            during.extend(f"{name}: {r[0]}.{r[1]}: {type(r[2]).__name__}: {r[2]}" for r in raised)
+    recs = sessions.run_sessions([("connect", snap), ("reset",), ("reset",)], observe, handler=handler)
     first = recs[0]["obs"] if recs and recs[0].get("obs") else None
+    base = set(first["raised"]) if first else set()
+    new_during = [x for x in dict.fromkeys(during) if x.split(": ", 1)[1] not in base]
+    ctx.count("evaluations")
+    if new_during:
+        ctx.violation("sessions:read-inside-an-event-handler", {"kind": "sessions", "connection": 0},
+                      "every read-only member can be read whenever the manager offers a facade - also from inside the client's handler of a teardown / disconnected / finished event",
+                      new_during[:6])
     for r in recs:
         ctx.count("evaluations")
         ctx.hist("sessions", "connected" if r["connected"] else "not-connected")
